@@ -778,11 +778,14 @@ def run(ctx):
         sel = select(cands, ms, n)
         items = [(p, None, i % 3 == 0) for i, p in enumerate(CORPUS + [x[0] for x in sel])]
         # the hand-off family: every reduction x explorer x strategy (brute force included) on every program, in both modes
-        nh = ctx.n(10, 100)
+        nh = ctx.n(8, 100)
         hcands = [gen_handoff(ctx.rng) for _ in range(12 * nh)]
         hsel = select_handoff(hcands, run_models(hcands), nh)
-        # (brute force with BeFS + uniform is a listed known-defective region and the most expensive run: left to the generic programs)
-        fam = [(p, [c for c in combos(p, full=True, none_limit=HANDOFF_NONE_LIMIT) if c != ("none", "BeFS", "uniform")], True)
+        # brute force: DFS and BeFS everywhere; with the uniform strategy only DFS (BeFS + uniform is a listed known-defective region)
+        # and, in the quick tier, only on the corpus (a brute-force run costs ~20 ms per interleaving)
+        drop = {("none", "BeFS", "uniform")}
+        fam = [(p, [c for c in combos(p, full=True, none_limit=HANDOFF_NONE_LIMIT)
+                    if c not in drop and not (ctx.quick and c == ("none", "DFS", "uniform") and p["profile"] != "handoff-corpus")], True)
                for p in CORPUS_HANDOFF + hsel]
         items = items[:len(CORPUS)] + fam + items[len(CORPUS):]
     progs = [it[0] for it in items]
@@ -871,8 +874,8 @@ META = {
             "executions and the verdict (exit status, DEADLOCK DETECTED / PROPERTY NOT VALID) must equal the reference's. A second corpus and "
             "generator aim at source-set computations (sdpor/odpor initials): tiny 4-actor programs where a semaphore/mailbox hand-off is followed "
             "by try_locks on distinct mutexes and the actor whose first event closes the happens-before chain is created first (already "
-            "explored/sleeping at the race); on these, brute force (<= 900 interleavings) and all 15 non-known-defective combinations run in the "
-            "quick tier, with the other creation orders as controls.",
+            "explored/sleeping at the race); on these, brute force (<= 900 interleavings, DFS and BeFS) and dpor/sdpor/odpor x DFS/BeFS x "
+            "none/uniform all run in the quick tier, with the other creation orders as controls.",
     "note": "Soundness of the DPOR/SDPOR/ODPOR/UDPOR race analyses is NOT mechanised: it is checked per program against the verified-complete reference "
             "(only the sleep-set core is a theorem). The reference semantics is hand-written and tied to the kernel by the same differential runs "
             "(brute force must reproduce it exactly). Not covered: condition variables, iprobe/test/waitany, dynamic actor creation, sthread "
